@@ -295,8 +295,20 @@ def attr_tables(ck, ctx):
             g_msvc.add((sbb, Q.bool_edges(st)[0]))
     trues = [bi for bi in cfg.reach for s in b.blocks[bi]["stmts"] if s["k"] == "assign" and not s["place"]["p"] and b.local_name(s["place"]["l"]) == "parse_showincludes" and s["rv"]["k"] == "use" and s["rv"]["op"].get("int") == 1]
     ok_ps = bool(g_msvc) and bool(trues) and all(Q.gated(cfg, x, g_msvc)[0] for x in trues)
-    if ok_ps:
+    # ... and that flag is what is stored in the Build
+    stored = False
+    for bi in cfg.reach:
+        for s_ in b.blocks[bi]["stmts"]:
+            if s_["k"] == "assign" and s_["place"]["p"] and s_["place"]["p"][-1]["k"] == "field" and s_["place"]["p"][-1]["name"] == "parse_showincludes" and norm(s_["place"]["p"][-1].get("of", "")) == "graph::Build":
+                o = s_["rv"].get("op") if s_["rv"]["k"] == "use" else None
+                if o is not None and o["k"] in ("copy", "move") and not o["place"]["p"]:
+                    from .C01 import _copy_source
+                    src_l = _copy_source(b, bi, o["place"]["l"])
+                    stored = stored or b.local_name(src_l if src_l is not None else o["place"]["l"]) == "parse_showincludes"
+    if ok_ps and stored:
         got["parse_showincludes"] = ["deps"]
+    else:
+        got.pop("parse_showincludes", None)
     for f, k in want.items():
         ck.ob("attr-tables", "field|%s" % f, got.get(f) == [k], "Build.%s is set from the `%s` attribute (%s)" % (f, k, got.get(f)), span=b.loc, fn=b.nname)
     ck.ob("attr-tables", "field|rspfile", got.get("rspfile") == ["rspfile", "rspfile_content"], "Build.rspfile is set from rspfile + rspfile_content (%s)" % got.get("rspfile"), span=b.loc, fn=b.nname)
@@ -325,6 +337,92 @@ def statements(ck, ctx):
         got[s["rv"]["variant"]] = sorted({c[1] for c in calls_in(e) if c[1].startswith("parse::Parser::read_")})
     for v, fn in want.items():
         ck.ob("statements", "variant|%s" % v, got.get(v) == [fn], "Statement::%s carries the result of %s (%s)" % (v, fn.split("::")[-1], got.get(v)), span=b.loc, fn=b.nname)
+    # statement headers end with a newline that is consumed: the indented block of a rule/pool is read only after expect('\n')
+    # succeeded, and `default` returns Ok only after it (otherwise the block is never attached / the next line is misread)
+    from . import runloop as RL
+    for fn, then in (("parse::Parser::read_rule", "parse::Parser::read_scoped_vars"), ("parse::Parser::read_pool", "parse::Parser::read_scoped_vars"), ("parse::Parser::read_default", None)):
+        fb = ck.need("fn " + fn, F.body(fn))
+        fcfg = ctx.cfg(fb)
+        FR = ctx.res(fb)
+        gates = set()
+        for bb_, t_ in Q.sites_in(fb, "scanner::Scanner::expect"):
+            if FR.arg(bb_, 1) == ("const", 10):
+                tr = RL.try_of_call(ctx, fb, bb_)
+                if tr:
+                    gates.add((tr[0], tr[1]))
+        if then:
+            targets = [bb_ for bb_, _ in Q.sites_in(fb, then)]
+        else:
+            targets = [bb_ for bb_, s_, e_ in C.ok_return_blocks(ctx, fb)]
+        ok = bool(gates) and bool(targets) and all(Q.gated(fcfg, x, gates)[0] for x in targets)
+        ck.ob("statements", "header-newline|%s" % fn.split("::")[-1], ok, "%s %s only after expect('\\n') succeeded" % (fn.split("::")[-1], "reads its indented block" if then else "returns Ok"), span=fb.loc, fn=fn)
+        ck.functions.add(fn)
+    # `$ ` `$$` `$:` stand for exactly the escaped character; `$`-newline stands for nothing
+    eb = ck.need("fn parse::Parser::read_escape", F.body("parse::Parser::read_escape"))
+    ER = ctx.res(eb)
+    ecfg = ctx.cfg(eb)
+    ck.functions.add(eb.nname)
+    first_sw = None
+    for sbb, st_, e_ in Q.switches(ctx, eb):
+        if {32, 36, 58} <= {v for v, _ in st_["arms"]}:
+            first_sw = (sbb, st_)
+            break
+
+    def first_slice_from(lab_value):
+        tg = [x for v, x in first_sw[1]["arms"] if v == lab_value]
+        seen_, work_ = set(), list(tg)
+        while work_:
+            y = work_.pop()
+            if y in seen_:
+                continue
+            seen_.add(y)
+            t_ = eb.blocks[y]["term"]
+            if t_ and t_["k"] == "call":
+                return (y, t_) if callee_of(t_) == "scanner::Scanner::slice" else (y, t_)
+            work_ += [z for z, _ in ecfg.succ[y]]
+        return None
+
+    ok_esc = first_sw is not None
+    det = {}
+    if ok_esc:
+        for ch in (32, 36, 58):
+            r_ = first_slice_from(ch)
+            good = False
+            if r_ and callee_of(r_[1]) == "scanner::Scanner::slice":
+                a1, a2 = strip(ER.arg(r_[0], 1)), strip(ER.arg(r_[0], 2))
+                good = a1[0] == "bin" and a1[1] == "Sub" and a1[3] == ("const", 1) and field_chain(strip(a1[2]))[1][-1:] == ["ofs"] and field_chain(a2)[1][-1:] == ["ofs"] and a2[0] == "field"
+            det[chr(ch)] = good
+            ok_esc = ok_esc and good
+        r_ = first_slice_from(10)
+        nl_ok = False
+        if r_:
+            # `$\n`: leading spaces of the continuation are skipped, then an empty literal
+            y_, t_ = r_
+            if callee_of(t_) == "scanner::Scanner::skip_spaces":
+                nxt_ = [z for z, _ in ecfg.succ[y_]]
+                while nxt_ and not (eb.blocks[nxt_[0]]["term"] and eb.blocks[nxt_[0]]["term"]["k"] == "call"):
+                    nxt_ = [z for z, _ in ecfg.succ[nxt_[0]]]
+                if nxt_ and callee_of(eb.blocks[nxt_[0]]["term"]) == "scanner::Scanner::slice":
+                    nl_ok = ER.arg(nxt_[0], 1) == ER.arg(nxt_[0], 2) and ER.arg(nxt_[0], 1)[0] == "const"
+        det["\\n"] = nl_ok
+        ok_esc = ok_esc and nl_ok
+    ck.ob("statements", "escape-literals", ok_esc, "`$ ` `$$` `$:` yield Literal(slice(ofs-1, ofs)) = exactly the escaped character, `$`-newline skips the continuation's indentation and yields an empty literal (%s)" % det, span=eb.loc, fn=eb.nname)
+    # `default` needs at least one path and accepts any positive number
+    db_ = ck.need("fn parse::Parser::read_default", F.body("parse::Parser::read_default"))
+    dcfg = ctx.cfg(db_)
+
+    def pred_empty(e):
+        e = strip(e)
+        return e[0] == "call" and e[1].endswith("Vec::is_empty")
+
+    g_e = set(C.bool_gate_edges(ctx, db_, pred_empty))
+    z_, nz_ = C.zero_test_edges(ctx, db_, lambda e: e[0] == "call" and e[1].endswith("Vec::len"))
+    g_e |= set(z_)
+    g_ne = {(x, [l for l in Q.bool_edges(db_.blocks[x]["term"]) if l != lab][0]) for x, lab in g_e}
+    perr = [bb_ for bb_, t_ in db_.calls() if callee_of(t_) == "scanner::Scanner::parse_error"]
+    oks_ = [bb_ for bb_, s_, e_ in C.ok_return_blocks(ctx, db_)]
+    ok_d = bool(g_e) and bool(perr) and all(Q.gated(dcfg, x, g_e)[0] for x in perr) and bool(oks_) and all(Q.gated(dcfg, x, g_ne)[0] for x in oks_)
+    ck.ob("statements", "default-nonempty", ok_d, "read_default reports `expected path` exactly when no path was read and returns the list otherwise", span=db_.loc, fn=db_.nname)
     # keyword strings
     kws = sorted({s.strip('"') for s in Q.body_strings(F, b) if s.startswith('"') and s.strip('"').isalpha()})
     ck.ob("statements", "keywords", {"rule", "build", "default", "include", "subninja", "pool"} <= set(kws), "Parser::read dispatches on the keywords %s" % kws, span=b.loc, fn=b.nname)
